@@ -187,7 +187,54 @@ def expand(state):
     return out
 
 
+def session_case(args):
+    """ONE Repository object for every user (unlocked again whenever the actor changes): the completion and
+    confinement oracles hold for every command all the same."""
+    kind, events = args
+    import itertools as _it
+    fsdirs = H.materialize()
+    s0 = make_initial_c08((kind, False))
+    vs = []
+    before = s0
+    n = 0
+    for ev, new, res in H.run_session(s0, events, fsdirs, one_object=True):
+        n += 1
+        sig0 = {'event': ev[0], 'actor_kind': s0.users[ev[1]]['kind'], 'planted': False, 'mode': 'one-repository-object-for-all-users'}
+        ev2 = ev
+        if ev[0] == 'delall':
+            ev2 = ('del', ev[1], tuple(i for i, e in enumerate(before.ledger) if e['owner'] == ev[1]))
+        if res.exc is not None:
+            vs.append((dict(sig0, what='command-failed', exc=type(res.exc).__name__), {'hist': new.hist, 'err': repr(res.exc)[:300]}))
+        if ev2[0] != 'del' or ev2[2]:
+            for p in oracles(before, res, ev2):
+                vs.append((dict(sig0, what=p['what']), {'session': [list(map(str, e)) for e in events], 'problem': p, 'kind': kind}))
+        before = new
+    return n, vs
+
+
+def session_histories(kind):
+    import itertools as _it
+    if kind == 'enc':
+        users = ['A', 'C', 'B']
+    else:
+        return []
+    menu = [(c, u) + ((f,) if c == 'snap' else ()) for u in users[:2] for c, f in (('snap', 'F1'), ('delall', None), ('clean', None))]
+    menu += [('snap', 'B', 'F1'), ('delall', 'B')]
+    out = []
+    prefix = [('snap', 'A', 'F1'), ('snap', 'C', 'F1')]
+    for k in (1, 2, 3):
+        for seq in _it.product(menu, repeat=k):
+            if len({e[1] for e in prefix[-1:] + list(seq)}) < 2 and k < 3:
+                continue
+            out.append((kind, prefix + list(seq)))
+    return out
+
+
 def replay(case):
+    if 'session' in case:
+        evs = [tuple(e) for e in case['session']]
+        n, vs = session_case((case.get('kind', 'enc'), evs))
+        return {'violations': [v[0]['what'] for v in vs]}
     fsdirs = H.materialize()
     hist = [tuple(tuple(x) if isinstance(x, list) else x for x in ev) for ev in case['hist']]
     planted = bool(hist) and hist[0][0] == 'planted'
@@ -226,9 +273,18 @@ def main():
             transitions += stats['transitions']
             for sig, detail in viol:
                 chk.violation(sig, detail)
+        sess = common.shuffled(session_histories('enc'), 'c08s')
+        if t == 'quick':
+            sess = [h for h in sess if len(h[1]) <= 4] + [h for h in sess if len(h[1]) == 5][::3]
+        ncmd = 0
+        for n_, vs_ in common.pmap(session_case, sess, chunksize=8, ordered=False):
+            ncmd += n_
+            for sig, detail in vs_:
+                chk.violation(sig, detail)
+        transitions += ncmd
         chk.coverage.update({
             'states': states, 'transitions': transitions, 'traces_validated_against_impl': transitions,
-            'evaluations': transitions, 'distinct_nontrivial': states,
+            'evaluations': transitions, 'distinct_nontrivial': states + len(sess), 'one_object_sessions': len(sess),
             'rule': 'BFS over snapshot/delete/clean histories from clean and planted initial states (orphans per family, foreign '
                     'tenant, bystanders); completeness/confinement oracles on every transition',
             'bfs': stats_all, 'bystanders': sorted(BYSTANDERS),
